@@ -43,6 +43,35 @@ func genC25(t *Tape) *Plan {
 	}
 	g.Connect(0)
 	g.Subscribe(0)
+	if t.Draw("c25.shape", 3) == 0 {
+		// offline-queue skeleton: the subscriber goes away, messages with different expiry intervals are queued
+		// for its session at different times, housekeeping runs, the subscriber comes back; the random tail
+		// follows. Which intervals, how many, and the waits in between are drawn from the tape.
+		first := len(g.plan.Ops)
+		for i := range g.plan.Ops {
+			if g.plan.Ops[i].Kind == "subscribe" && g.plan.Ops[i].Pkt != nil && len(g.plan.Ops[i].Pkt.Filters) > 0 {
+				g.plan.Ops[i].Pkt.Filters[0].Filter = "#"
+				g.plan.Ops[i].Pkt.Filters[0].Opts = g.plan.Ops[i].Pkt.Filters[0].Opts&^3 | 1
+			}
+			if g.plan.Ops[i].Kind == "connect" && g.plan.Ops[i].Pkt != nil {
+				g.plan.Ops[i].Pkt.CleanStart = false
+			}
+		}
+		g.Connect(1)
+		g.Drop(0)
+		for i, n := 0, 2+t.Draw("c25.queued", 3); i < n; i++ {
+			g.Publish(1)
+			if t.Draw("c25.gap", 2) == 0 {
+				g.add(Op{Kind: "advance", Ms: k.AdvMs[t.Draw("c25.gapms", len(k.AdvMs))]})
+			}
+		}
+		g.add(Op{Kind: "advance", Ms: k.AdvMs[t.Draw("c25.wait", len(k.AdvMs))]})
+		g.Connect(0)
+		g.plan.Ops[len(g.plan.Ops)-1].Pkt.CleanStart = false
+		for i := first; i < len(g.plan.Ops); i++ {
+			g.plan.Ops[i].Concurrent = false
+		}
+	}
 	p := g.Run()
 	p.Ops = append(p.Ops, Op{Kind: "advance", Ms: 3000})
 	return p
@@ -63,6 +92,7 @@ func checkC25(r *Result) []Violation {
 		vt  int64
 		eff int64
 		op  int
+		seq int
 	}
 	pubs := map[string]pubInfo{}
 	for i, op := range r.Plan.Ops {
@@ -79,14 +109,15 @@ func checkC25(r *Result) []Violation {
 		}
 		// publish time: when the packet was delivered
 		vt := int64(-1)
+		seq := -1
 		for _, e := range r.H.Evs {
 			if e.Kind == "in" && e.Last && e.Op == i {
-				vt = e.VT
+				vt, seq = e.VT, e.Seq
 				break
 			}
 		}
 		if vt >= 0 {
-			pubs[payloadIDOf(op.Pkt.Payload)] = pubInfo{vt, eff, i}
+			pubs[payloadIDOf(op.Pkt.Payload)] = pubInfo{vt, eff, i, seq}
 		}
 	}
 	for _, c := range r.Ex.Conns {
@@ -100,7 +131,9 @@ func checkC25(r *Result) []Violation {
 			if !ok || pi.eff == 0 {
 				continue
 			}
-			first := !seen[id] && !pr.P.Dup
+			// "not yet sent" is judged on the wire: the broker sets DUP on everything it sends after a reconnect,
+			// also on messages it had only queued
+			first := !seen[id] && !hasBeenWritten(r, sessIDOfConn(c), id, pr.Seq)
 			seen[id] = true
 			path := "live"
 			if pr.P.Retain {
@@ -110,8 +143,30 @@ func checkC25(r *Result) []Violation {
 			}
 			expireAt := (pi.vt/1000)*1000 + pi.eff*1000 // whole seconds, as the broker's clock counts
 			if first && pr.VT > expireAt+2000 {
-				out = append(out, viol("C25", "expired-message-delivered", fmt.Sprintf("conn %d: message %q published at t=%dms with effective expiry %d s was first sent at t=%dms (%s)", c.Idx, id, pi.vt, pi.eff, pr.VT, path), pr.Seq,
-					"path", path, "ver", verClass(c.Ver)))
+				// why was it held back: the session was offline when it was published, or it was connected (then only
+				// flow control can have deferred it)
+				held := "offline"
+				rmLimited := "false" // did the session's connection at (or last before) publish time declare a small Receive Maximum?
+				lastOpen := -1
+				for _, c2 := range r.Ex.Conns {
+					if sessIDOfConn(c2) != sessIDOfConn(c) || c2.openSeq > pi.seq {
+						continue
+					}
+					if c2.closeSeq < 0 || c2.closeSeq > pi.seq {
+						held = "connected"
+					}
+					if c2.openSeq > lastOpen {
+						lastOpen = c2.openSeq
+						rmLimited = "false"
+						if cp2 := connectPkt(c2, r); cp2 != nil && c2.Ver == 5 {
+							if p, ok := cp2.Props.Get(refcodec.PReceiveMaximum); ok && p.Int <= 3 {
+								rmLimited = "true"
+							}
+						}
+					}
+				}
+				out = append(out, viol("C25", "expired-message-delivered", fmt.Sprintf("conn %d: message %q published at t=%dms with effective expiry %d s was first sent at t=%dms (%s, session %s at publish time)", c.Idx, id, pi.vt, pi.eff, pr.VT, path, held), pr.Seq,
+					"path", path, "ver", verClass(c.Ver), "held", held, "rm_limited", rmLimited))
 			}
 			if c.Ver == 5 {
 				mei, has := pr.P.Props.Get(refcodec.PMessageExpiry)
